@@ -13,8 +13,8 @@ variable {M : Scm} {G : MG Name}
 
 /-! ### which constructor the routines return -/
 
-theorem probShape_of_not_prob {nodes : List Name} {e : Expr} {H : List Name} (h : isProb e = false) :
-    ProbShape nodes e H := by
+theorem probShape_of_not_prob {e : Expr} {H : List Name} (h : isProb e = false) :
+    ProbShape e H := by
   cases e with
   | prob pop c p => simp [isProb] at h
   | _ => trivial
@@ -105,7 +105,7 @@ theorem lemma4_not_prob {q e : Expr} {D topo : List Name} (hq : isProb q = false
 theorem lemma1_probShape {pop : Option Var} {ch pa : List Var} {H D : List Name} {w : List Iv} {e : Expr}
     (hs : Shape G ch pa H w) (hsub : ∀ x ∈ H, x ∈ G.nodes) (hDH : ∀ v ∈ D, v ∈ H) (hDnd : D.Nodup)
     (h : lemma1 D (.prob pop ch pa) H = .ok e) (D' : List Name) (hD' : D.Perm D') :
-    ProbShape G.nodes e D' := by
+    ProbShape e D' := by
   by_cases hpe : isProb e = false
   · exact probShape_of_not_prob hpe
   · unfold lemma1 at h
@@ -160,9 +160,15 @@ theorem lemma1_probShape {pop : Option Var} {ch pa : List Var} {H D : List Name}
               have hD'eq : D' = [v'] := List.perm_singleton.mp hD'.symm
               subst hD'eq
               have hvH : v' ∈ H := hDH v' List.mem_cons_self
-              have hnames : ∀ n ∈ H, n ∈ ch.map (·.name) := fun n hn => hs.perm.mem_iff.mpr hn
-              refine ⟨w, ?_, ?_, ?_, ?_⟩
-              · simp [inWorld_name]
+              have hnames : ∀ n ∈ H, n ∈ ch.map (·.name) := fun n hn => hs.covers n hn
+              refine ⟨w, ?_, ?_, ?_, ?_, ?_⟩
+              · intro h hh
+                rw [List.mem_singleton.mp hh]
+                simp [inWorld_name]
+              · intro c hc
+                left
+                rw [List.mem_singleton.mp hc]
+                simp [inWorld_name]
               · intro x hx
                 rcases List.mem_append.mp hx with hx | hx
                 · rw [List.mem_singleton.mp hx]
@@ -172,17 +178,15 @@ theorem lemma1_probShape {pop : Option Var} {ch pa : List Var} {H D : List Name}
                   · rcases List.mem_map.mp hx with ⟨n, hn, rfl⟩
                     exact hs.world _ (List.mem_append_left _ (inWorld_mem (hnames n (by rw [e1]; simp [hn]))))
               · intro i hi
-                refine ⟨(hs.ivs i hi).1, ?_, (hs.ivs i hi).2.2⟩
+                refine ⟨(hs.ivs i hi).1, ?_⟩
                 intro hm
-                exact (hs.ivs i hi).2.1 (List.mem_singleton.mp hm ▸ hvH)
+                exact (hs.ivs i hi).2 (List.mem_singleton.mp hm ▸ hvH)
               · intro x hx
                 rcases (hP x).mp hx with hx | hx
-                · refine ⟨?_, (hs.parents x hx).2⟩
-                  intro hm
-                  exact (hs.parents x hx).1 (List.mem_singleton.mp hm ▸ hvH)
+                · intro hm
+                  exact (hs.parents x hx) (List.mem_singleton.mp hm ▸ hvH)
                 · rcases List.mem_map.mp hx with ⟨n, hn, rfl⟩
                   rw [inWorld_name]
-                  refine ⟨?_, hsub n (by rw [e1]; simp [hn])⟩
                   intro hm
                   exact hvp (List.mem_singleton.mp hm ▸ hn)
 
@@ -201,11 +205,11 @@ theorem ancestralQ_inv (hM : M.Compatible G) (hrank : G.Ranked) (σ' : Val) (top
 theorem ancestralProb_inv (hM : M.Compatible G) (hG : G.WF) (hrank : G.Ranked) (σ' : Val) (topo A T : List Name)
     (htnd : topo.Nodup) (hAT : ∀ a ∈ A, a ∈ T) (hT : ∀ t ∈ T, t ∈ G.nodes) (hanc : AncestralIn G A T)
     (pop : Option Var) (ch pa : List Var) (qA : Expr)
-    (hshape : ProbShape G.nodes (.prob pop ch pa) (topo.filter (· ∈ T)))
+    (hshape : ProbShape (.prob pop ch pa) (topo.filter (· ∈ T)))
     (hq : ∀ σ, den (M.env G) σ' (.prob pop ch pa) σ = M.Q (topo.filter (· ∈ T)) σ)
     (h : ancestralProb pop ch pa (topo.filter (· ∈ A)) = .ok qA) :
     (∀ σ, den (M.env G) σ' qA σ = M.Q (topo.filter (· ∈ A)) σ) ∧
-      ProbShape G.nodes qA (topo.filter (· ∈ A)) := by
+      ProbShape qA (topo.filter (· ∈ A)) := by
   obtain ⟨w, hs⟩ := shape_of_probShape hshape
   have hoAne : topo.filter (· ∈ A) ≠ [] := by
     intro h0
@@ -240,7 +244,7 @@ theorem ancestralProb_inv (hM : M.Compatible G) (hG : G.WF) (hrank : G.Ranked) (
     rw [this, funext hq]
     exact congrFun (sumVars_Q_anc hM hrank A T topo hAT hT hanc htnd) σ
   · obtain ⟨c, P', rfl, hs', _, _⟩ := ancestralProb_probShape hs (htnd.filter _) hAH h
-    exact ⟨w, hs'.perm, hs'.world, hs'.ivs, hs'.parents⟩
+    exact ⟨w, hs'.covers, hs'.extras, hs'.world, hs'.ivs, hs'.parents⟩
 
 /-! ### the recursion -/
 
@@ -249,7 +253,7 @@ expression, that expression denotes `Q[C]`. -/
 theorem identifyAux_sound (hM : M.Compatible G) (hG : G.WF) (hrank : G.Ranked) (σ' : Val)
     (topo : List Name) (htnd : topo.Nodup) (hord : TopoOrdered G topo) (C : List Name) :
     ∀ (fuel : Nat) (T : List Name) (q : Expr), (∀ t ∈ T, t ∈ G.nodes) →
-      ProbShape G.nodes q (topo.filter (· ∈ T)) →
+      ProbShape q (topo.filter (· ∈ T)) →
       (∀ σ, den (M.env G) σ' q σ = M.Q (topo.filter (· ∈ T)) σ) →
       ∀ e, identifyAux G topo C fuel T q = .ok (some e) →
       ∀ σ, den (M.env G) σ' e σ = M.Q (topo.filter (· ∈ C)) σ := by
@@ -302,7 +306,7 @@ theorem identifyAux_sound (hM : M.Compatible G) (hG : G.WF) (hrank : G.Ranked) (
                       -- the expression for Q[A]
                       have hqA : ∀ qA, ancestralExpr q A T (topo.filter (· ∈ A)) topo = .ok qA →
                           (∀ σ, den (M.env G) σ' qA σ = M.Q (topo.filter (· ∈ A)) σ) ∧
-                            ProbShape G.nodes qA (topo.filter (· ∈ A)) := by
+                            ProbShape qA (topo.filter (· ∈ A)) := by
                         intro qA hqA
                         unfold ancestralExpr at hqA
                         split at hqA
